@@ -57,6 +57,8 @@ def make_class(case):
         # post_init=True handlers: restoring / copying state must not run them
         ns["dirty"] = Int(0)
         ns["edits"] = Int(0)
+        ns["early"] = PrototypedFrom("late_inst", prefix="v")   # declared BEFORE the Instance it delegates to
+        ns["late_inst"] = Instance(Child)                       # no default object
     for d in case["cls"]:
         md = {}
         if d["transient"]:
@@ -90,6 +92,8 @@ def make_class(case):
         ns["_words_edited"] = on_trait_change("words[]", post_init=True)(_words_edited)
         ns["drows"] = DelegatesTo("inst", prefix="rows")      # write-through delegate onto a deep-copy container trait
         ns["pv"] = PrototypedFrom("inst", prefix="v")         # non-write-through delegate, never overridden
+        ns["kidset"] = Set(Instance(Child))                    # items also reachable through `kids`
+        ns["ml"] = List(Int, [7], minlen=1)                    # a list that may never be empty
         ns["uid"] = UUID(can_init=True)                        # writable only until the object is initialised
         ns["byobj"] = Dict(Instance(Child), Int, copy="deep")  # keyed by mutable hashable objects
         ns["bystr"] = Dict(Str, Instance(Child))               # Dict carries no copy metadata of its own
@@ -281,6 +285,17 @@ def graph_probes(pool, o, c):
     c.text = "changed"
     c.words.append("c")
     out.append(["inst", 910, "deep", False, quiet and (c.dirty, c.edits) == (1, 1) and (o.dirty, o.edits) == (0, 0)])
+    # 911: a locally overridden prototyped trait declared before its Instance: the override is the object's own
+    # state and is carried over (and the delegate object is a copy with the same state)
+    out.append(["inst", 911, "deep", c.late_inst is o.late_inst,
+                c.early == o.early == 42 and c.late_inst is not None and c.late_inst.v == 8 and o.late_inst.v == 8])
+    # 912: a set of objects one of which is also reachable through `kids`: copies, and the aliasing is preserved
+    # inside the copy (the copy of kids[0] IS the member of the copied set)
+    out.append(["inst", 912, meta("kidset"), any(a is b for a in c.kidset for b in o.kidset),
+                sorted(x.v for x in c.kidset) == sorted(x.v for x in o.kidset) == [1, 6]
+                and any(x is c.kids[0] for x in c.kidset) and any(x is o.kids[0] for x in o.kidset)])
+    # 913: a list trait with minlen >= 1 keeps its (non-default) value
+    out.append(["inst", 913, "deep", c.ml is o.ml, list(c.ml) == list(o.ml) == [5, 6]])
     # 901: the child's own container is live on the copy's child
     wi, wo = [], []
     hs = {}
@@ -334,7 +349,7 @@ def make_side_handlers(side, wi, wo):
 
 def run_case(case):
     K = make_class(case)
-    o = K(uid=uuid.UUID(int=77), text="hello", words=["a", "b"]) if case.get("graph") else K()
+    o = K(uid=uuid.UUID(int=77), text="hello", words=["a", "b"], late_inst=Child(v=8)) if case.get("graph") else K()
     pool = Pool(o)
     hist_out = []
     for h in case["ops"]:
@@ -350,6 +365,9 @@ def run_case(case):
     if case.get("graph"):
         o.inst = Child(v=3, tags=["x"])
         o.kids = [Child(v=1, tags=["a"]), Child(v=2)]
+        o.early = 42                                           # local override of the prototyped trait
+        o.kidset = {o.kids[0], Child(v=6)}
+        o.ml = [5, 6]
         o.drows = [[1, 2], [3]]                                # assignment through the delegate
         o.inst.rows.append([4, 5])
         o.byobj = {o.kids[0]: 1, Child(v=9): 2}
